@@ -242,7 +242,11 @@ func (ex *Exec) abstractCall(key string, args []Value, sig *types.Signature) Val
 				if srt == "" || !it.covers(key) || keyLevel(key, srt) != 1 {
 					continue
 				}
-				if old, ok := pre.heap[key]; ok {
+				old, ok := pre.heap[key]
+				if !ok {
+					old, ok = ex.heap0[key] // not touched before this call: still the entry heap
+				}
+				if ok {
 					ex.hStore1(key, srt, it.ref, Sel(old, it.ref))
 				}
 			}
